@@ -14,6 +14,7 @@ from vlib.trace import reached, concrete, pick
 from harness.known import kf_open
 
 import os
+import re
 LAST_FAILURE = None
 THOROUGH = os.environ.get("VERIF_TIER", "quick") == "thorough"
 # identifier-length bounds (quick / thorough); the runner reports the ones in force
@@ -532,7 +533,9 @@ def c02_shadowed_parameter(p: str, q: str) -> bool:
         cpps = [t.to_cpp() for t in sig]
         chosen = [c for c in ("ns::X", "ns::Y<int>") if all(c in s for s in cpps)]
         other = {"ns::X": "ns::Y<int>", "ns::Y<int>": "ns::X"}
-        if len(chosen) != 1 or any(other[chosen[0]] in s for s in cpps) or any(p + "::" in s or ("<" + p + ">") in s for s in cpps):
+        with concrete():
+            idents = [w for s in cpps for w in re.findall(r"[A-Za-z_]\w*", s)]          # whole identifiers: `s::` is not inside `ns::`
+        if len(chosen) != 1 or any(other[chosen[0]] in s for s in cpps) or (p in idents and p not in ("std", "vector", "map", "int", "ns", "X", "Y", "const")):      # a parameter spelled like a name the result contains anyway proves nothing
             ok = _fail(member=label, types=cpps, problem="the occurrences of the parameter are not all replaced by one and the same concrete type")
             break
     reached()
